@@ -98,3 +98,22 @@ Definition opt_ltb (a b : option N) : bool :=
   | Some x, Some y => N.ltb x y
   | _, None => false
   end.
+
+(* for i in (lo..hi).rev() { body }: i = hi-1, hi-2, .., lo *)
+Fixpoint for_loop_rev {S R} (body : N -> S -> outcome (step S R)) (hi : N) (n : nat) (s : S)
+  : outcome (fin S R) :=
+  match n with
+  | O => Val (Done s)
+  | S k =>
+      let! r := body (hi - 1) s in
+      match r with
+      | Next s' => for_loop_rev body (hi - 1) k s'
+      | Brk s' => Val (Done s')
+      | Ret v => Val (Retd v)
+      end
+  end.
+
+(* a.checked_add(b) at width w *)
+Definition checked_add (w a b : N) : option N := if a + b <? 2 ^ w then Some (a + b) else None.
+Definition zimul (w : N) (a b : Z) : outcome Z :=
+  if zin w (a * b)%Z then Val (a * b)%Z else Fault Overflow.
